@@ -128,6 +128,8 @@ func checkC07(c *Check) {
 	p := c.P
 	c.rendezvousChannels("C07.1 manager-sees-every-request", "transitionCh")
 	c.readerHandoffRule("C07.4 loser-reader-joined")
+	c.peerManagerContracts("C07.5 manager-effects")
+	c.fsmContracts("C07.3 fsm-effects")
 	fn := p.Fn("peer.handleStateTransition")
 	if fn == nil || len(fn.Params) != 3 {
 		c.undecided("C07.anchor", "peer.handleStateTransition", "signature", "-", "expected (p, i, t)")
